@@ -57,6 +57,7 @@ type c04scenario struct {
 	known  bool
 	events []c04ev
 	depth  [2]int
+	mkfx   func() *c04fx // nil: c04newFx(n, th)
 }
 
 type c04viol struct {
@@ -155,12 +156,13 @@ func (b *c04book) judge(vp base.Voteproof, th base.Threshold) *c04viol {
 		sig["stage"] = vp.Point().Stage().String()
 		return &c04viol{sig: sig, detail: fmt.Sprintf("voteproof of %s (%T, %s, %d sign facts): ", psp, vp, vp.Result(), len(vp.SignFacts())) + fmt.Sprintf(format, a...)}
 	}
+	suf := fx.sufOfPoint(vp.Point()) // the suffrage of the voteproof's own stage point
 	if eid := fx.vpid[vp.ID()]; eid != "" {
 		// a voteproof that arrived inside a ballot and is handed through
 		if !b.carried[eid] {
 			return mk(map[string]any{"kind": "emitted-voteproof-never-received", "origin": "embedded"}, "embedded voteproof %s was never carried by a submitted ballot", eid)
 		}
-		if err := isaac.IsValidVoteproofWithSuffrage(vp, fx.suf); err != nil {
+		if err := isaac.IsValidVoteproofWithSuffrage(vp, suf); err != nil {
 			return mk(map[string]any{"kind": "fails-validation", "origin": "embedded", "reason": c04errClass(err)}, "embedded voteproof %s handed through although IsValidVoteproofWithSuffrage says: %v", eid, err)
 		}
 		return nil
@@ -180,10 +182,10 @@ func (b *c04book) judge(vp base.Voteproof, th base.Threshold) *c04viol {
 			return mk(map[string]any{"kind": "foreign-point-vote", "origin": "counted"}, "contains %s, a sign fact of %s", name, c04spOf(f.Point()))
 		case seen[node]:
 			return mk(map[string]any{"kind": "node-counted-twice", "origin": "counted"}, "node %s has two sign facts", node)
-		case !fx.suf.Exists(sf.Node()):
+		case !suf.Exists(sf.Node()):
 			return mk(map[string]any{"kind": "non-member-vote-counted", "who": "not-in-suffrage", "path": b.path[name], "origin": "counted"},
 				"contains %s: node %s is not in the suffrage", name, node)
-		case !fx.suf.ExistsPublickey(sf.Node(), sf.Signer()):
+		case !suf.ExistsPublickey(sf.Node(), sf.Signer()):
 			return mk(map[string]any{"kind": "non-member-vote-counted", "who": "member-address-foreign-key", "path": b.path[name], "origin": "counted"},
 				"contains %s: signed with a key that is not the suffrage key of %s", name, node)
 		case !b.accepted[c04key(psp, isaac.IsSuffrageConfirmBallotFact(f))][name]:
@@ -206,14 +208,14 @@ func (b *c04book) judge(vp base.Voteproof, th base.Threshold) *c04viol {
 	if msg != "" {
 		return mk(map[string]any{"kind": "fails-validation", "origin": "counted", "check": "IsValid", "reason": c04errClass(fmt.Errorf("%s", msg))}, "IsValid(networkID): %s", msg)
 	}
-	if err := isaac.IsValidVoteproofWithSuffrage(vp, fx.suf); err != nil {
+	if err := isaac.IsValidVoteproofWithSuffrage(vp, suf); err != nil {
 		return mk(map[string]any{"kind": "fails-validation", "origin": "counted", "check": "IsValidVoteproofWithSuffrage", "reason": c04errClass(err), "expels": c04nExpels(vp) > 0},
 			"IsValidVoteproofWithSuffrage: %v", err)
 	}
 	// fresh recount
-	n, q := fx.n, c04quorum(th, fx.n)
+	n, q := suf.Len(), c04quorum(th, suf.Len())
 	if x := c04nExpels(vp); x > 0 {
-		n = fx.n - x
+		n = suf.Len() - x
 		q = n
 	}
 	res, maj := c04recount(vp.SignFacts(), n, q)
@@ -271,11 +273,11 @@ type c04world struct {
 
 func c04newWorld(sc *c04scenario, fx *c04fx) *c04world {
 	w := &c04world{sc: sc, fx: fx, known: sc.known, book: c04newBook(fx), kinds: map[string]bool{}}
-	w.box = fx.freshBox(func(base.Height) (base.Suffrage, bool, error) {
+	w.box = fx.freshBox(func(h base.Height) (base.Suffrage, bool, error) {
 		if !w.known {
 			return nil, false, nil
 		}
-		return fx.suf, true, nil
+		return fx.sufFor(h), true, nil
 	})
 	return w
 }
@@ -485,6 +487,24 @@ func c04scenarios() []*c04scenario {
 		vote("n0", p4, "A", false, "acc:33"), vote("n1", p4, "A", false, "acc:33"),
 		{kind: "count"}, {kind: "setlast", p: p2, maj: true}, {kind: "setlast", p: p3, maj: false},
 	}})
+	// E: the suffrage changes between two consecutive heights (stage points of height 32 belong to the old suffrage, of height 33 to
+	// the new one): INIT ballots of (33,0) carry ACCEPT voteproofs of (32,0) signed by old-only / mixed / new-only node sets; votes of
+	// the joining / leaving node at both heights
+	q1, q2 := P(32, 0, true), P(33, 0, false)
+	out = append(out, &c04scenario{name: "suffrage-join", n: 4, th: 67, known: true, depth: [2]int{4, 7},
+		mkfx: func() *c04fx { return c04newFxChange(4, 67, []int{0, 1, 2}, []int{0, 1, 2, 3}, 32) }, events: []c04ev{
+			vote("n0", q2, "A", false, "accs:32:n0,n1,n2"), vote("n1", q2, "A", false, "accs:32:n0,n1,n3"), vote("n2", q2, "A", false, "accs:32:n3"),
+			vote("n3", q2, "A", false, "accs:32:n0,n1,n2"),
+			vote("n3", q1, "A", false, ""), vote("n0", q1, "A", false, ""), vote("n1", q1, "A", false, ""), vote("n2", q1, "A", false, ""),
+			{kind: "count"}, {kind: "setlast", p: P(32, 0, false), maj: true},
+		}})
+	out = append(out, &c04scenario{name: "suffrage-leave", n: 4, th: 67, known: true, depth: [2]int{4, 7},
+		mkfx: func() *c04fx { return c04newFxChange(4, 67, []int{0, 1, 2, 3}, []int{0, 1, 2}, 32) }, events: []c04ev{
+			vote("n0", q2, "A", false, "accs:32:n0,n1,n3"), vote("n1", q2, "A", false, "accs:32:n0,n1,n2"), vote("n3", q2, "A", false, "accs:32:n0,n1,n2"),
+			vote("n3", q2, "A", false, ""), vote("n2", q2, "A", false, ""),
+			vote("n3", q1, "A", false, ""), vote("n0", q1, "A", false, ""), vote("n1", q1, "A", false, ""), vote("n2", q1, "A", false, ""),
+			{kind: "count"}, {kind: "setlast", p: P(32, 0, false), maj: true},
+		}})
 	return out
 }
 
@@ -503,6 +523,9 @@ func TestVerifC04(t *testing.T) {
 	item := 0
 	for _, sc := range c04scenarios() {
 		fx := c04newFx(sc.n, sc.th)
+		if sc.mkfx != nil {
+			fx = sc.mkfx()
+		}
 		depth := sc.depth[tier]
 		r.Set("depth_"+sc.name, depth)
 		r.Set("events_"+sc.name, len(sc.events))
